@@ -406,40 +406,61 @@ fn run_pressure(rec: &mut Rec, steps: u32) {
     }
 }
 
+/// what the two engines did in one block: registers, last_block_cycle_length, serial bytes
+#[derive(Clone, Debug, PartialEq)]
+pub struct BlockObs {
+    pub regs: crate::mach::Regs,
+    pub cycles: usize,
+    pub serial: Vec<u8>,
+}
+
+pub struct RestartProbe {
+    /// bytes of the translation area in use when the DAA block was entered
+    pub level: usize,
+    /// the filling made the area restart (the level asked for lies beyond the threshold)
+    pub restarted: bool,
+    pub last_filler_pc: u16,
+    /// the whole bank of DAA under bank 1: (jit, interpreter)
+    pub largest: (BlockObs, BlockObs),
+    /// bank 1 executed at the address whose bank-2 block made the area restart
+    pub after_restart: Option<(BlockObs, BlockObs)>,
+}
+
 /// The largest block there is (a whole bank of DAA, the instruction with the longest
 /// translation) entered with the translation area filled to every level: filler blocks of
-/// chosen length bring the area to `target` bytes (or to wherever the emulator restarts it),
-/// then the DAA block runs and must do what the interpreter does.
-fn largest_block_at_level(rec: &mut Rec, target: usize) {
+/// chosen length (runs of the two-cycle INC DE in bank 2, each entry address a new block) bring the area
+/// to `target` bytes or to wherever the emulator restarts it; then the DAA block of bank 1
+/// runs; and if the filling made the area restart, bank 1 is also executed at the address of
+/// the bank-2 block that caused the restart. Both banks transmit their own byte before
+/// returning. Shared by C03 (registers), C02 (cycles) and C18 (serial stream).
+pub fn restart_probe(target: usize) -> Result<RestartProbe, String> {
     use crate::mach::Regs;
-    let case = json!({"kind": "largest-block-at-fill-level", "target": target});
-    rec.current(&case.to_string());
-    rec.eval(1);
-    rec.class("largest-block-at-fill-level", 1);
-    rec.nontrivial(fnv(case.to_string().as_bytes()));
     let mut rom = crate::rom::RomImage::new(0x03, 0x02, 0x03, 0x00);
-    for a in 0..0x3fff {
+    for a in 0..0x4000 {
         rom.bytes[0x4000 + a] = 0x27;
-        rom.bytes[0x8000 + a] = 0x3c;
+        rom.bytes[0x8000 + a] = 0x13;
     }
-    rom.bytes[0x7fff] = 0xc9;
-    rom.bytes[0xbfff] = 0xc9;
+    for bank in 1..3usize {
+        let tail = [0x3e, 0x30 + bank as u8, 0xe0, 0x01, 0x3e, 0x81, 0xe0, 0x02, 0xc9];
+        let at = bank * 0x4000 + 0x4000 - tail.len();
+        rom.bytes[at..at + tail.len()].copy_from_slice(&tail);
+    }
     rom.fix_checksum();
     let mut jit = j::M::new(&rom);
     let mut int = i::M::new(&rom);
     let regs = |pc: u16| Regs { af: 0x1200, bc: 0, de: 0, hl: 0, sp: 0xdff0, pc: pc as u32, cycles: 0 };
-    let r = guarded(|| {
-        // fill with runs of INC A of chosen length (each entry address is a new block)
+    guarded(|| {
         jit.write(0x2000, 2);
         let mut used = jit.cache_used();
         let mut entry = 0x4000u16;
         let mut restarted = false;
+        let mut last_pc = 0u16;
         while used + 64 < target && entry < 0x7f00 {
-            let want = ((target - used) / 39).clamp(1, 0x3fff - (entry as usize - 0x4000));
-            let pc = (0x7fff - want) as u16;
-            let pc = pc.max(entry);
+            let want = ((target - used) / 39).clamp(1, 0x3ff0 - (entry as usize - 0x4000));
+            let pc = ((0x7ff6 - want) as u16).max(entry);
             jit.set_regs(&regs(pc));
             jit.step_block();
+            last_pc = pc;
             let now = jit.cache_used();
             if now < used {
                 restarted = true;
@@ -454,20 +475,41 @@ fn largest_block_at_level(rec: &mut Rec, target: usize) {
         let level = jit.cache_used();
         jit.write(0x2000, 1);
         int.write(0x2000, 1);
-        jit.set_regs(&regs(0x4000));
-        int.set_regs(&regs(0x4000));
-        jit.step_block();
-        int.step_block();
-        (level, restarted)
-    });
-    match r {
+        let _ = jit.serial_take();
+        let _ = int.serial_take();
+        let mut run = |pc: u16, jit: &mut j::M, int: &mut i::M| {
+            jit.set_regs(&regs(pc));
+            int.set_regs(&regs(pc));
+            jit.step_block();
+            let oj = BlockObs { regs: jit.regs(), cycles: jit.last_block_cycles(), serial: jit.serial_take() };
+            int.step_block();
+            let oi = BlockObs { regs: int.regs(), cycles: int.last_block_cycles(), serial: int.serial_take() };
+            (oj, oi)
+        };
+        let largest = run(0x4000, &mut jit, &mut int);
+        let after_restart = if restarted { Some(run(last_pc, &mut jit, &mut int)) } else { None };
+        RestartProbe { level, restarted, last_filler_pc: last_pc, largest, after_restart }
+    })
+}
+
+fn largest_block_at_level(rec: &mut Rec, target: usize) {
+    let case = json!({"kind": "largest-block-at-fill-level", "target": target});
+    rec.current(&case.to_string());
+    rec.eval(1);
+    rec.class("largest-block-at-fill-level", 1);
+    rec.nontrivial(fnv(case.to_string().as_bytes()));
+    match restart_probe(target) {
         Err(m) => rec.violation("largest-block-panic", case, format!("a whole bank of DAA entered with about {} bytes of the translation area in use: panicked: {}", target, m)),
-        Ok((level, restarted)) => {
-            if restarted {
+        Ok(p) => {
+            if p.restarted {
                 rec.class("fill-level-beyond-the-restart-threshold", 1);
             }
-            if jit.regs() != int.regs() {
-                rec.violation("largest-block-differs", case, format!("a whole bank of DAA entered with {} bytes of the translation area in use: registers {:?}, interpreter {:?}", level, jit.regs(), int.regs()));
+            if p.largest.0 != p.largest.1 {
+                rec.violation("largest-block-differs", case, format!("a whole bank of DAA entered with {} bytes of the translation area in use: jit {:?}, interpreter {:?}", p.level, p.largest.0, p.largest.1));
+            } else if let Some((oj, oi)) = &p.after_restart {
+                if oj != oi {
+                    rec.violation("restart-block-under-other-bank", case, format!("the block at {:#06x} made the translation area restart while bank 2 was mapped; the same address executed under bank 1 afterwards: jit {:?}, interpreter {:?}", p.last_filler_pc, oj, oi));
+                }
             }
         }
     }
